@@ -95,7 +95,8 @@ Mix ==
                             "SetBounds", "RxnKnockOut", "SetRule", "GeneKnockOut", "KnockOutModelGenes", "RemoveGenes",
                             "RenameGene", "SetObjective", "SetObjCoef", "SetDirection", "SetMedium", "SwitchSolver",
                             "AddUserCons", "AddUserVar", "RemoveUserCons", "RemoveUserVar", "Helper", "Helper",
-                            "DetachedSetBounds", "DetachedSetBounds", "Copy", "Merge", "BuildFromString", "SetFunctional">>
+                            "DetachedSetBounds", "DetachedSetBounds", "Copy", "Merge", "BuildFromString", "SetFunctional", "RenameReaction",
+                            "RenameMetabolite", "SwitchSolver">>
     [] Profile = "ko" -> <<"GeneKnockOut", "GeneKnockOut", "GeneKnockOut", "KnockOutModelGenes", "KnockOutModelGenes",
                            "RxnKnockOut", "SetRule", "SetRule", "Enter", "Exit", "SetBounds", "AddReactions", "SetFunctional">>
     [] Profile = "copy" -> <<"Copy", "Copy", "AddReactions", "RemoveReactions", "RemoveMetabolites", "RxnAddMetabolites",
@@ -140,7 +141,10 @@ DrawOp(r, S) ==
       k1 == IF k0 = "SwitchSolver" /\ IsModel(S.m[s]) /\ Len(S.ctx[s]) > 0 /\ d[23] % 5 # 0 THEN "SetDirection" ELSE k0
       \* operations that are not documented as reversible (renaming, groups, annotations) are exercised outside
       \* contexts only: C03 quantifies over documented-as-reversible changes
-      k == IF k1 \in (NotContextAware \ {"DetachedSetBounds"}) /\ IsModel(S.m[s]) /\ Len(S.ctx[s]) > 0 THEN "SetObjCoef" ELSE k1
+      \* (renames are let through now and then: their contexts are tainted, the invariants are still judged)
+      k == IF k1 \in (NotContextAware \ {"DetachedSetBounds"}) /\ IsModel(S.m[s]) /\ Len(S.ctx[s]) > 0
+              /\ ~(k1 \in {"RenameReaction", "RenameMetabolite"} /\ d[22] % 3 = 0)
+           THEN "SetObjCoef" ELSE k1
       rx == PickPresent(RxSeq, C.rxns, d[3])
       rx2 == PickPresent(RxSeq, C.rxns, d[4])
       mt == PickPresent(MetSeq, C.mets, d[5])
